@@ -300,3 +300,17 @@ Example fire_example :
   | _, _ => False
   end.
 Proof. cbn. repeat split. Qed.
+
+(* ------------------------------------------------------------------------------------------ *)
+(* reopening (C10): nothing persistent changes, the clock is seeded at or above the persisted high-water
+   mark, and the expiry timer is re-armed at or before the earliest pending expiry                *)
+Theorem reopen_preserves s x :
+  let s' := sr_store (sstep s x SReopen) in
+  s_docs s' = s_docs s /\ s_colls s' = s_colls s /\ s_views s' = s_views s /\ s_lastcas s' = s_lastcas s
+  /\ s_lastcas s <= s_high s' /\ s_high s <= s_high s'.
+Proof.
+  cbn. repeat split; [apply hlc_update_ge_r | apply hlc_update_ge_l].
+Qed.
+
+Theorem reopen_rearms s next x : covered (sr_store (sstep s x SReopen)) (next_after next s SReopen (sstep s x SReopen)).
+Proof. cbn [next_after]. apply min_exp_covers. Qed.
